@@ -134,6 +134,30 @@ class SCheck(Check):
             cand["plans"] = [dict(cand["plans"][0], sched={"kind": "rtb"})]
             if reproduces(cand):
                 best = cand
+        # 2b. an explicit schedule with as few context switches as possible (single-invocation cases)
+        if time.time() < deadline and best["plans"][0]["sched"].get("kind") not in ("rtb", "explicit") and len(best["case"]["steps"]) == 1:
+            try:
+                res, _, _ = run_step(sim, best["case"], 0, dict(best["plans"][0], record_sched=True), "none")
+                L = res.get("sched") or []
+            except Exception:
+                L = []
+            if L and len(L) <= 20000:
+                cand = copy.deepcopy(best)
+                cand["plans"] = [dict(cand["plans"][0], sched={"kind": "explicit", "list": L})]
+                if reproduces(cand):
+                    best = cand
+                    tries = 0
+                    i = 1
+                    while i < len(L) and tries < 80 and time.time() < deadline:
+                        if L[i] != L[i - 1]:
+                            L2 = list(L)
+                            L2[i] = L[i - 1]
+                            cand = copy.deepcopy(best)
+                            cand["plans"][0]["sched"]["list"] = L2
+                            tries += 1
+                            if reproduces(cand):
+                                best, L = cand, L2
+                        i += 1
         # 3. drop setup entries (last first so children go before parents)
         ops = best["case"].get("setup", [])
         i = len(ops) - 1
